@@ -206,7 +206,11 @@ impl Label {
     /// Panics if `start` is beyond the end of `slice`.
     #[must_use]
     pub fn iter_slice(slice: &[u8], start: usize) -> SliceLabelsIter<'_> {
-        SliceLabelsIter { slice, start }
+        SliceLabelsIter {
+            slice,
+            start,
+            segment: start,
+        }
     }
 
     /// Returns a reference to the underlying octets slice.
@@ -738,6 +742,13 @@ pub struct SliceLabelsIter<'a> {
     ///
     /// As a life hack, we use `usize::MAX` to fuse the iterator.
     start: usize,
+
+    /// The position in `slice` where the current uncompressed segment of
+    /// the name started.
+    ///
+    /// A compression pointer must point to before this position. This
+    /// guarantees that following pointers terminates.
+    segment: usize,
 }
 
 impl<'a> Iterator for SliceLabelsIter<'a> {
@@ -760,13 +771,14 @@ impl<'a> Iterator for SliceLabelsIter<'a> {
                 }
                 Err(SplitLabelError::Pointer(pos)) => {
                     let pos = pos as usize;
-                    if pos > self.start {
+                    if pos >= self.segment {
                         // Incidentally, this also covers the case where
                         // pos points past the end of the message.
                         self.start = usize::MAX;
                         return None;
                     }
                     self.start = pos;
+                    self.segment = pos;
                     continue;
                 }
                 Err(_) => {
